@@ -120,4 +120,16 @@ CHECKS = {
     text=("All geometries (incl. refused), writable or not, init images; arbitrary cyc/stb/we/adr/sel/dat_w with hold/redraw per signal group; ack, read data at ack and the "
           "memory rows (every cycle for touched rows, full image every 4 cycles) are compared with the model."),
     note="Memory rows are read via the simulator from the Memory object listed in the SRAM's memory map."),
+ "C14": dict(
+    design_ref="DESIGN.md section 4, C14",
+    technique="property-based testing: cycle-accurate simulation of the CSR event monitor (attached via decoder or wiring.connect) vs. composed multiplexer + event-monitor model",
+    text=("Generated event counts (0 .. >2 bus words), widths, alignments and trigger modes; conforming CSR transactions on the addresses the memory map reports run against "
+          "arbitrary source waveforms; every cycle bus.r_data and src.i are compared with the composed model (enable read-back, pending read/W1C, trigger beats clear, atomic multi-chunk reads)."),
+    note="Mask registers are written completely or not at all. Observation through the bus port and src.i only."),
+ "C16": dict(
+    design_ref="DESIGN.md section 4, C16",
+    technique="property-based testing: cycle-accurate simulation of the GPIO peripheral vs. composed multiplexer + GPIO model",
+    text=("Generated pin counts (1 .. > one bus word of mode bits), bus geometries, input_stages 0-3; conforming CSR transactions on Mode/Input/Output/SetClr with per-pin differing "
+          "random data interleaved with arbitrary pin waveforms; every cycle bus.r_data, all pins' o/oe and alt_mode are compared with the model."),
+    note="Register addresses are taken from the memory map by name and cross-checked with natural-alignment arithmetic."),
 }
